@@ -36,4 +36,10 @@ pub mod zderives {
     impl Default for NodeData {
         fn default() -> (r: Self) ensures r.rrsets.rrsets@.len() == 0 { NodeData { rrsets: RrsetList::default() } }
     }
+
+    // ---- Debug (derive(Debug) of Rrset; needed only as a trait bound of `RrsetIterator`; never called)
+    #[verifier::external]
+    impl core::fmt::Debug for crate::db::rrset::Rrset {
+        fn fmt(&self, _f: &mut core::fmt::Formatter<'_>) -> core::fmt::Result { unimplemented!() }
+    }
 }
